@@ -135,6 +135,12 @@ static inline int bit_width_for_max(int max_val) {
     return width;
 }
 
+/* A page header's sizes and value count are attacker-controlled: negative values
+ * turn into huge sizes once cast to size_t. */
+static bool page_header_sizes_valid(const parquet_page_header_t* h) {
+    return h->compressed_page_size >= 0 && h->uncompressed_page_size >= 0;
+}
+
 /* ============================================================================
  * Level Decoding
  * ============================================================================
@@ -661,6 +667,12 @@ static carquet_status_t load_dictionary_page_mmap(
         return CARQUET_ERROR_INVALID_PAGE;
     }
 
+    if (!page_header_sizes_valid(&page_header) ||
+        page_header.dictionary_page_header.num_values < 0) {
+        CARQUET_SET_ERROR(error, CARQUET_ERROR_INVALID_PAGE, "Invalid dictionary page header");
+        return CARQUET_ERROR_INVALID_PAGE;
+    }
+
     if (!mmap_body_in_file(file_reader, dict_offset, header_size,
                            page_header.compressed_page_size)) {
         CARQUET_SET_ERROR(error, CARQUET_ERROR_INVALID_PAGE, "Dictionary page extends past end of file");
@@ -793,6 +805,12 @@ static carquet_status_t load_dictionary_page_fread(
         return CARQUET_ERROR_INVALID_PAGE;
     }
 
+    if (!page_header_sizes_valid(&page_header) ||
+        page_header.dictionary_page_header.num_values < 0) {
+        CARQUET_SET_ERROR(error, CARQUET_ERROR_INVALID_PAGE, "Invalid dictionary page header");
+        return CARQUET_ERROR_INVALID_PAGE;
+    }
+
     /* Allocate compressed buffer */
     uint8_t* compressed = malloc(page_header.compressed_page_size);
     if (!compressed) {
@@ -918,6 +936,14 @@ static carquet_status_t load_next_page_mmap(
 
     if (page_header.type != CARQUET_PAGE_DATA && page_header.type != CARQUET_PAGE_DATA_V2) {
         CARQUET_SET_ERROR(error, CARQUET_ERROR_INVALID_PAGE, "Expected data page");
+        return CARQUET_ERROR_INVALID_PAGE;
+    }
+
+    /* The page cannot hold more values than the column chunk still has to deliver */
+    if (!page_header_sizes_valid(&page_header) ||
+        page_header.data_page_header.num_values < 0 ||
+        page_header.data_page_header.num_values > reader->values_remaining) {
+        CARQUET_SET_ERROR(error, CARQUET_ERROR_INVALID_PAGE, "Invalid data page header");
         return CARQUET_ERROR_INVALID_PAGE;
     }
 
@@ -1135,6 +1161,14 @@ static carquet_status_t load_next_page_fread(
 
     if (page_header.type != CARQUET_PAGE_DATA && page_header.type != CARQUET_PAGE_DATA_V2) {
         CARQUET_SET_ERROR(error, CARQUET_ERROR_INVALID_PAGE, "Expected data page");
+        return CARQUET_ERROR_INVALID_PAGE;
+    }
+
+    /* The page cannot hold more values than the column chunk still has to deliver */
+    if (!page_header_sizes_valid(&page_header) ||
+        page_header.data_page_header.num_values < 0 ||
+        page_header.data_page_header.num_values > reader->values_remaining) {
+        CARQUET_SET_ERROR(error, CARQUET_ERROR_INVALID_PAGE, "Invalid data page header");
         return CARQUET_ERROR_INVALID_PAGE;
     }
 
